@@ -2,7 +2,7 @@
 use super::*;
 use crate::dslgen::{self, unhex6};
 use crate::rng::Rng;
-use cgt_core::Transaction;
+use cgt_core::{Operation, Transaction};
 use serde_json::json;
 
 pub fn run(ctx: &mut Ctx) {
@@ -52,6 +52,56 @@ pub fn run(ctx: &mut Ctx) {
             Ok(back) => if back != txs { ctx.ev.violation("oracle", "serialising to JSON and reading back changes a transaction".into(), format!("# property C14\n# oracle: JSON round trip\n{}\n", serde_json::to_string_pretty(&txs).unwrap_or_default())); },
             Err(e) => ctx.ev.violation("oracle", format!("the tool's own JSON does not read back: {e}"), format!("# property C14\n{text}\n")),
         }
+        // (4b) the JSON value model: the value serde gives for each transaction is the model's, and variants of
+        // it (action and ticker in other letter case, `CAP_RETURN`, pounds as a bare string, a zero fee left out,
+        // an unknown extra key, the legacy `gbp` key, a missing or unknown currency, a zero quantity, 30 February)
+        // are accepted or refused by the real reader as by the model's, to the same transaction
+        if let Some(m) = ctx.model.as_mut() {
+            for t in txs.iter().take(3) {
+                let Ok(v) = serde_json::to_value(t) else { continue };
+                ctx.ev.traces_validated += 1;
+                let resp = m.ask(&format!("tojson {}", dslgen::tx_wire(t)));
+                let want = format!("ok {}", jv_wire(&v));
+                if resp != want && !resp.starts_with("bad-request") {
+                    ctx.ev.violation("correspondence", "the JSON value of a transaction differs from the Lean model's".into(), format!("# property C14\n# correspondence: serde_json::to_value vs Json.toJ\n# impl:  {want}\n# model: {resp}\n{}\n", serde_json::to_string(t).unwrap_or_default()));
+                }
+                for k in 0..12u32 {
+                    let mut w = v.clone();
+                    let Some(o) = w.as_object_mut() else { continue };
+                    let money_key = ["price", "total_value"].into_iter().find(|k| o.contains_key(*k));
+                    match k {
+                        0 => {}
+                        1 => { if let Some(a) = o.get("action").and_then(|a| a.as_str()).map(|a| a.to_lowercase()) { o.insert("action".into(), json!(a)); } }
+                        2 => { if o.get("action").and_then(|a| a.as_str()) == Some("CAPRETURN") { o.insert("action".into(), json!("Cap_Return")); } else { continue; } }
+                        3 => { if let Some(a) = o.get("ticker").and_then(|a| a.as_str()).map(|a| a.to_lowercase()) { o.insert("ticker".into(), json!(a)); } }
+                        4 => { let Some(mk) = money_key else { continue }; if o[mk]["currency"] == json!("GBP") { let a = o[mk]["amount"].clone(); o.insert(mk.into(), a); } else { continue; } }
+                        5 => { let fk = ["fees", "tax_paid"].into_iter().find(|k| o.contains_key(*k)); let Some(fk) = fk else { continue }; o.remove(fk); }
+                        6 => { o.insert("note".into(), json!("x")); }
+                        7 => { let Some(mk) = money_key else { continue }; o[mk]["gbp"] = json!("1"); }
+                        8 => { let Some(mk) = money_key else { continue }; o[mk].as_object_mut().map(|x| x.remove("currency")); }
+                        9 => { let Some(mk) = money_key else { continue }; o[mk]["currency"] = json!(["ZZZ", "usd", ""][(i as usize) % 3]); }
+                        10 => { let qk = ["amount", "ratio"].into_iter().find(|k| o.contains_key(*k)); let Some(qk) = qk else { continue }; o.insert(qk.into(), json!("0")); }
+                        _ => { o.insert("date".into(), json!("2023-02-30")); }
+                    }
+                    ctx.ev.traces_validated += 1;
+                    ctx.ev.count("json-reader-variants");
+                    let real = match serde_json::from_value::<Transaction>(w.clone()) { Ok(t2) => format!("ok {}", dslgen::tx_wire(&t2)), Err(_) => "reject".to_string() };
+                    let resp = m.ask(&format!("fromjson {} {}", json_codes(&w), jv_wire(&w)));
+                    if resp == "unmodelled" || resp.starts_with("bad-request") { ctx.ev.count("json-reader-variants:outside-the-model"); continue; }
+                    if resp != real {
+                        ctx.ev.violation("correspondence", format!("the JSON reader and the Lean model disagree on a transaction value (variant {k})"), format!("# property C14\n# correspondence: serde_json::from_value::<Transaction> vs Json.fromJ\n# impl:  {real}\n# model: {resp}\n{w}\n"));
+                    }
+                    // the reader's documented liberties, judged without the model: variants 1–6 are the same transaction
+                    if (1..=6).contains(&k) {
+                        let base = if k == 5 { dslgen::drop_zero_label(t) } else { t.clone() };
+                        let fee_zero = match &t.operation { Operation::Buy { fees, .. } | Operation::Sell { fees, .. } | Operation::CapReturn { fees, .. } => fees.amount.is_zero(), Operation::Dividend { tax_paid, .. } | Operation::Accumulation { tax_paid, .. } => tax_paid.amount.is_zero(), _ => true };
+                        if (k != 5 || fee_zero) && real != format!("ok {}", dslgen::tx_wire(&base)) {
+                            ctx.ev.violation("oracle", format!("a transaction value in an equivalent spelling (variant {k}: letter case of action or ticker, CAP_RETURN, bare-string pounds, omitted zero fee, extra key) is not read as the same transaction"), format!("# property C14\n# oracle: JSON reader\n# read as: {real}\n# expected: ok {}\n{w}\n", dslgen::tx_wire(&base)));
+                        }
+                    }
+                }
+            }
+        }
         // (5) same report from all three
         if i % 4 == 0 {
             // arithmetic overflow on huge magnitudes panics inside calculate (known finding D9, C15):
@@ -69,4 +119,29 @@ pub fn run(ctx: &mut Ctx) {
         }
         if i < 2 { ctx.ev.sample(json!({"written": text})); }
     }
+}
+
+/// a JSON value on the model's wire: `S<hex6>` string, `N` other scalar or array, `O{k=v,…}` object with its
+/// fields sorted by key
+fn jv_wire(v: &serde_json::Value) -> String {
+    match v {
+        serde_json::Value::String(s) => format!("S{}", dslgen::hex6(s)),
+        serde_json::Value::Object(o) => {
+            let mut fs: Vec<String> = o.iter().map(|(k, x)| format!("{k}={}", jv_wire(x))).collect();
+            fs.sort();
+            format!("O{{{}}}", fs.join(","))
+        }
+        _ => "N".to_string(),
+    }
+}
+
+/// the ISO codes among the `currency` strings of a value, as the model's list of valid codes
+fn json_codes(v: &serde_json::Value) -> String {
+    let mut out: Vec<String> = vec!["GBP".into()];
+    if let Some(o) = v.as_object() {
+        for x in o.values() {
+            if let Some(c) = x.get("currency").and_then(|c| c.as_str()) { if cgt_money::Currency::from_code(c).is_some() && !out.iter().any(|y| y == c) { out.push(c.to_string()); } }
+        }
+    }
+    out.join(";")
 }
